@@ -204,6 +204,20 @@ where
     }
 }
 
+/// Verification hooks (feature `verif-hooks`, default off, add-only).
+#[cfg(feature = "verif-hooks")]
+impl<F, K, P> AssignedField<F, K, P>
+where
+    F: CircuitField,
+    K: CircuitField,
+    P: FieldEmulationParams<F, K>,
+{
+    /// The (inclusive) limb bounds tracked for this element.
+    pub fn verif_limb_bounds(&self) -> Vec<(BI, BI)> {
+        self.limb_bounds.clone()
+    }
+}
+
 #[cfg(any(test, feature = "testing"))]
 impl<F, K, P> Sampleable for AssignedField<F, K, P>
 where
